@@ -41,4 +41,61 @@ def written : List Event → List Value
   | [] => []
   | e :: t => e.writes ++ written t
 
+-- ------------------------------------------------------------------------------------------------
+-- buffering: what the operating system has vs. what still sits in the process
+-- ------------------------------------------------------------------------------------------------
+/-- a binary file opened for writing through a buffer: `disk` is what the OS has been handed (what survives a
+    crash of the process), `buf` what is still in the process' write buffer -/
+structure BFile where
+  disk : Bytes
+  buf : Bytes
+  deriving Inhabited
+
+/-- `write b spill`: `fo.write(b)` after which the buffering layer hands the first `spill` bytes of its buffer to
+    the OS (any amount: this covers every buffering policy, and an OS write that is cut short by the crash);
+    `flush`: `fo.flush()` / `close()` -/
+inductive FOp where
+  | write (b : Bytes) (spill : Nat)
+  | flush
+
+def BFile.apply (f : BFile) : FOp → BFile
+  | .write b k => ⟨f.disk ++ (f.buf ++ b).take k, (f.buf ++ b).drop k⟩
+  | .flush => ⟨f.disk ++ f.buf, []⟩
+
+def BFile.runOps (f : BFile) (ops : List FOp) : BFile := ops.foldl BFile.apply f
+
+def BFile.empty : BFile := ⟨[], []⟩
+
+/-- everything the program has written, in order -/
+def opsLog : List FOp → Bytes
+  | [] => []
+  | .write b _ :: t => b ++ opsLog t
+  | .flush :: t => opsLog t
+
+/-- `FilteredFlowWriter.add` per state: `tnetstring.dump(state, fo); fo.flush()`; `ks` = how much the buffering layer
+    spills on each write -/
+def streamOps : List Value → List Nat → List FOp
+  | [], _ => []
+  | v :: t, ks => .write (dumps v) (ks.headD 0) :: .flush :: streamOps t ks.tail
+
+/-- `FlowWriter.add` per state inside `with open(path, mode) as f:` — no flush until the file is closed -/
+def explicitOps : List Value → List Nat → List FOp
+  | [], _ => [.flush]
+  | v :: t, ks => .write (dumps v) (ks.headD 0) :: explicitOps t ks.tail
+
+/-- the stream-saving addon over a hook sequence: every state a hook writes goes through `FilteredFlowWriter.add` -/
+def hookOps (evs : List Event) (ks : List Nat) : List FOp := streamOps (written evs) ks
+
+/-- CPython's `BufferedWriter.write` with buffer size `B` on a regular file (raw writes complete): buffer the data
+    if it fits; otherwise flush the buffer, then write the data through if it is larger than the buffer, else buffer it -/
+def pyWrite (B : Nat) (f : BFile) (b : Bytes) : BFile :=
+  if b.length ≤ B - f.buf.length then ⟨f.disk, f.buf ++ b⟩
+  else if b.length > B then ⟨f.disk ++ f.buf ++ b, []⟩
+  else ⟨f.disk ++ f.buf, b⟩
+
+/-- `FlowWriter` on a CPython buffered file: the file after each `add` (no flush), starting from `f` -/
+def pyExplicit (B : Nat) : BFile → List Bytes → List BFile
+  | _, [] => []
+  | f, b :: t => let f' := pyWrite B f b; f' :: pyExplicit B f' t
+
 end MitmVerif.C37
